@@ -85,7 +85,8 @@ def _worker(args):
     res.setdefault('errors', [])
   except Exception as e:  # pylint: disable=broad-except
     tb = traceback.extract_tb(e.__traceback__)
-    in_repo = [f for f in tb if f.filename.startswith('/repo/')]
+    roots = ('/repo/', os.environ.get('VERIF_REPO', '/repo') + '/')
+    in_repo = [f for f in tb if f.filename.startswith(roots)]
     if in_repo:
       # the library itself raised while being driven inside its documented
       # domain: that is a finding about the code, reported with the task as
@@ -94,7 +95,7 @@ def _worker(args):
       res = {'violations': [dict(
           key='%s:raises:%s' % (pid, type(e).__name__),
           what='%s at %s:%d (%s): %s' % (type(e).__name__,
-                                         last.filename[len('/repo/'):],
+                                         last.filename.split('/brax/', 1)[-1],
                                          last.lineno, last.name,
                                          str(e)[:300]),
           case=dict(kind='task', task=task))], 'evaluations': 1}
